@@ -378,6 +378,8 @@ def check_record_stream(fx, rep, rule, impl, rl):
         if t[0] == "call" and t[1] == "std::iter::Iterator::peekable" and len(t[2]) == 1:
             t = t[2][0]
         good = t[0] == "call" and t[1] == "std::iter::Iterator::filter_map" and t[2][0] == it and _is_result_ok(fx, t[2][1])
+        # `.flatten()` over an iterator of Results: Result's IntoIterator yields the Ok payload once and nothing for Err
+        good = good or t == ("call", "std::iter::Iterator::flatten", (it,))
     rep.check(rule, "%s/record-stream/%s" % (rule, impl), good, loc=F.loc(rl.loop["node"]),
               found="the record loop iterates %s" % (S.tstr(drv)[:300] if drv else "?"),
               expected="peekable(filter_map(<mapping>.iter(), Result::ok)): every Ok record of the whole mapping, in file order")
